@@ -420,3 +420,13 @@ pub fn complete_path(word: &str, for_dir: bool) -> Vec<(String, Option<String>, 
 pub fn escape_path(path: &str) -> String { crate::tools::escape_path(path) }
 
 pub fn escaped_word_start(line: &str) -> usize { crate::completers::escaped_word_start(line) }
+
+/// `highlight::CicadaHighlighter::highlight`: (start byte, end byte, styled-as-command) per range, in order.
+pub fn highlight_ranges(line: &str) -> Vec<(usize, usize, bool)> {
+    use lineread::highlighting::{Highlighter, Style};
+    let h = crate::highlight::CicadaHighlighter;
+    h.highlight(line)
+        .into_iter()
+        .map(|(r, st)| (r.start, r.end, !matches!(st, Style::Default)))
+        .collect()
+}
